@@ -14,6 +14,11 @@ pub static NEXT_ID: AtomicU32 = AtomicU32::new(1);
 pub static CLONE_PANIC: AtomicBool = AtomicBool::new(false);
 
 pub struct ClonePanic;
+/// a defect of the harness itself (an operation applied to a handle of the wrong kind): never the crate's
+pub struct HarnessBug(pub String);
+pub fn harness_bug(msg: &str) -> ! {
+    std::panic::panic_any(HarnessBug(msg.to_string()))
+}
 thread_local! {
     /// run once inside the next payload Clone::clone (a deterministic "scheduling point" inside the
     /// library call for the protocol extraction)
@@ -25,6 +30,11 @@ pub struct ObsPanic;
 fn obs_fault() {
     if OBS_PANIC.swap(false, Ordering::SeqCst) {
         std::panic::panic_any(ObsPanic);
+    }
+}
+impl Default for A {
+    fn default() -> A {
+        A::mk(0)
     }
 }
 impl PartialEq for A {
